@@ -2,7 +2,7 @@
 //! Histories on a real Memvid (text / chunked / blank / binary puts, with or without a 4-dimensional
 //! embedding, instant-indexed or not, updates, deletes, commits, reopen, exit-without-commit);
 //! at fully committed points FOUR handles are compared: the live one, a byte copy reopened
-//! read-write, a copy opened read-only, a copy opened after doctor{rebuild_lex / rebuild_time}:
+//! read-write, a copy opened read-only, a copy opened after doctor{rebuild_lex / rebuild_time / rebuild_vec}:
 //!  - model (Model/Persist.v): frame count, engine documents holding the probe word, vector ids,
 //!    vec enabled, time-index ids, sketch ids in track order, for each of the four handles;
 //!  - property oracle: a fixed battery of lexical queries (no_sketch = true), vector queries and
@@ -177,14 +177,15 @@ pub fn run_history(r: &mut Rng, nops: usize, profile: u64) -> History {
         let pick = |r: &mut Rng| -> u64 { if r.chance(1, 8) || docs.is_empty() { n_committed + r.below(2) } else { docs[r.below(docs.len() as u64) as usize] } };
         let op = if i + 1 == nops { Op::Commit }
         else if c < 46 || (n_committed == 0 && c < 75) {
-            let payload = match r.below(12) {
+            // profile 1 starts with a frame that gets no sketch entry: every later sketch id is shifted by the reload (F-C39-1 / F-C28-1)
+            let payload = if profile == 1 && frames_ref.is_empty() { let _ = r.below(12); Payload::Blank(r.range(1, 9) as usize) } else { match r.below(12) {
                 0 => Payload::Bin(r.range(2, 200) as usize),
                 1 | 2 if profile == 1 => Payload::Blank(r.range(1, 9) as usize),
                 1 => Payload::Blank(r.range(1, 9) as usize),
                 3 if profile != 2 => Payload::Chunked(r.range(2500, 4200) as usize),
                 _ => Payload::Text(r.range(40, 400) as usize),
-            };
-            let instant = match profile { 2 => r.chance(3, 4), _ => r.chance(1, 12) };
+            } };
+            let instant = match profile { 2 => r.chance(3, 4), _ => r.chance(1, 12) } || (profile == 1 && frames_ref.is_empty());   // an instant-indexed whitespace-only put gets no sketch entry
             let uri = if r.chance(1, 3) { uri_counter += 1; Some(if r.chance(1, 3) { 1 } else { uri_counter.min(3) }) } else { None };
             Op::Put { payload, embed: r.chance(2, 5), instant, default_opts: profile == 2 && r.chance(1, 2), uri, deco: (r.below(8) as u8) & if r.chance(1, 2) { 7 } else { 0 } }
         } else if c < 58 && n_committed > 0 {
@@ -197,6 +198,7 @@ pub fn run_history(r: &mut Rng, nops: usize, profile: u64) -> History {
         let wal_seq_before = memvid_core::verif_hooks::wal_stats(d.mem()).3;
         let next_before = d.mem().next_frame_id();
         let fc_before = d.mem().frame_count() as u64;
+        let sk_before = d.mem().sketches().len() as u64;
         let mut ok = true; let mut seq = 0u64; let mut errk = 0u128;
         let ts = 1_700_000_000 + (i as i64) * 40_000;
         let op_term;
@@ -274,7 +276,14 @@ pub fn run_history(r: &mut Rng, nops: usize, profile: u64) -> History {
         // frames that reached the table in this step: did apply_records give them a sketch entry?
         if fc > fc_before {
             let ids: BTreeSet<u64> = d.mem().sketches().iter().map(|e| e.frame_id).collect();
-            for id in fc_before..fc { if let Some(b) = bits_known.get_mut(id as usize) { *b = Some(ids.contains(&id)); } }
+            if matches!(op, Op::Reopen) {
+                // the commit ran inside Drop and the open renumbered the track: only the NUMBER of new entries is
+                // observable (which of the new frames got one no longer matters: every id is renumbered)
+                let k = (ids.len() as u64).saturating_sub(sk_before);
+                for (j, id) in (fc_before..fc).enumerate() { if let Some(b) = bits_known.get_mut(id as usize) { *b = Some((j as u64) < k); } }
+            } else {
+                for id in fc_before..fc { if let Some(b) = bits_known.get_mut(id as usize) { *b = Some(ids.contains(&id)); } }
+            }
             pending_texts.retain(|(id, _)| *id >= fc);
         }
         let (_, pending, _, _) = memvid_core::verif_hooks::wal_stats(d.mem());
@@ -283,7 +292,8 @@ pub fn run_history(r: &mut Rng, nops: usize, profile: u64) -> History {
         if quiet && (i + 1 == nops || (is_boundary && r.chance(2, 3)) || r.chance(1, 6)) && n_points < 4 {
             // ---------- the four handles ----------
             n_points += 1;
-            let lexf = r.chance(2, 3); let timef = !lexf || r.chance(1, 2);
+            let lexf = r.chance(2, 3); let timef = !lexf || r.chance(1, 2); let vecf = r.chance(1, 2);
+            if vecf { tags.insert("doctor-rebuild-vec".into()); }
             let p_rw = copy_to(&d.path, scratch.path(), "rw.mv2");
             let p_ro = copy_to(&d.path, scratch.path(), "ro.mv2");
             let p_dc = copy_to(&d.path, scratch.path(), "dc.mv2");
@@ -293,9 +303,10 @@ pub fn run_history(r: &mut Rng, nops: usize, profile: u64) -> History {
             let live_sk: Vec<u64> = d.mem().sketches().iter().map(|e| e.frame_id).collect();
             let dense = live_sk.iter().enumerate().all(|(j, id)| *id == j as u64);
             if !dense { sketch_nondense_seen = true; tags.insert("sketch-ids-not-dense".into()); }
+            let live_vec_on = d.mem().stats().map(|s| s.vec_enabled).unwrap_or(false);
             let live_main = battery(d.mem(), &words, true, true);
             let live_sketch = battery(d.mem(), &words, false, false);
-            let doc_rep = std::panic::catch_unwind(|| Memvid::doctor(&p_dc, DoctorOptions { rebuild_time_index: timef, rebuild_lex_index: lexf, rebuild_vec_index: false, vacuum: false, dry_run: false, quiet: true }));
+            let doc_rep = std::panic::catch_unwind(|| Memvid::doctor(&p_dc, DoctorOptions { rebuild_time_index: timef, rebuild_lex_index: lexf, rebuild_vec_index: vecf, vacuum: false, dry_run: false, quiet: true }));
             match &doc_rep { Ok(Ok(_)) => {}, Ok(Err(e)) => { viol.get_or_insert(format!("doctor-failed: after op {}: {}", i, e)); } Err(_) => { viol.get_or_insert(format!("doctor-failed: after op {}: panic", i)); } }
             let mut obs = vec![live_obs];
             let handles: Vec<(&str, Result<Memvid, memvid_core::MemvidError>)> = vec![
@@ -306,6 +317,9 @@ pub fn run_history(r: &mut Rng, nops: usize, profile: u64) -> History {
                         obs.push(observe(&mut m));
                         let main = battery(&mut m, &words, true, true);
                         for ((q, a), (_, b)) in live_main.iter().zip(main.iter()) {
+                            // doctor{rebuild_vec_index} on a memory without vector index enables an EMPTY one: the live handle
+                            // answers VecNotEnabled, the doctored one must answer the empty list (C28_same_answers_outside_known, last clause)
+                            if name == "doctored" && vecf && !live_vec_on && q.starts_with("search_vec") { if b != "[]" { viol.get_or_insert(format!("doctor-vec-not-empty: after op {} {} on a memory without vector index returns {} after doctor{{rebuild_vec_index}}", i, q, &b[..b.len().min(160)])); } tags.insert("doctor-enables-empty-vec".into()); continue; }
                             if a != b { viol.get_or_insert(format!("handles-differ: after op {} {} answers differently on the {} handle: live {} / {} {}", i, q, name, &a[..a.len().min(200)], name, &b[..b.len().min(200)])); }
                         }
                         let sk = battery(&mut m, &words, false, false);
@@ -321,7 +335,7 @@ pub fn run_history(r: &mut Rng, nops: usize, profile: u64) -> History {
                 }
             }
             if obs.len() == 4 { if obs[0].coq() != obs[1].coq() { differing_sets = true; } }
-            ops_t.push(T::C("CRead", vec![T::N(0), T::B(lexf), T::B(timef)]));
+            ops_t.push(T::C("CRead", vec![T::N(0), T::B(lexf), T::B(timef), T::B(vecf)]));
             points.push(T::Tup(obs));
         } else if !quiet && (profile == 2 || r.chance(1, 3)) && n_peeks < 6 {
             // ---------- between a put and its commit ----------
@@ -365,10 +379,35 @@ pub fn run_history(r: &mut Rng, nops: usize, profile: u64) -> History {
     History { ops: ops_t, outs, points, peeks, violation: viol.or(known), tags: tags.into_iter().collect(), nontrivial }
 }
 
+
+/// MV_C28_WITNESS=1: runs candidate witnesses of F-C28-1 and prints what happens (diagnostic only)
+fn witness() {
+    for variant in 0..8 {
+        let mut d = Driver::new();
+        let scratch = tempfile::tempdir().unwrap();
+        let first: Vec<u8> = match variant { 5 | 6 | 7 => payload_bytes(&Payload::Blank(5), 9), 0 | 4 => b" \n ".to_vec(), 1 => vec![0xFF, 0xFE, 0x01, 0x02], _ => vec![0xFF, 0xFE, 0x01, 0x02] };
+        let r0 = d.mem().put_bytes_with_options(&first, put_options(1_700_000_000, None, 0, variant == 6 || variant == 7, variant != 5 && variant != 7));
+        if variant == 3 || variant == 4 { d.mem().commit().unwrap(); let dl = d.mem().delete_frame(0); let mut o = put_options(0, None, 0, false, false); o.timestamp = None; let r = d.mem().update_frame(0, None, o, None); eprintln!("  delete_frame(0) -> {:?}; update_frame(0, None) -> {:?}", dl.is_ok(), r.is_ok()); }
+        if variant == 2 { d.mem().commit().unwrap(); let mut o = put_options(0, None, 0, false, false); o.timestamp = None; let r = d.mem().update_frame(0, None, o, None); eprintln!("  update_frame(0, None) -> {:?}", r.is_ok()); }
+        let text = format!("{} {} alpha bravo.", uw(1), COMMON);
+        d.mem().put_bytes_with_options(text.as_bytes(), put_options(1_700_000_100, None, 0, false, false)).unwrap();
+        d.mem().commit().unwrap();
+        let live_sk: Vec<u64> = d.mem().sketches().iter().map(|e| e.frame_id).collect();
+        let live: Vec<u64> = d.mem().search(sreq(COMMON, 10, false, None, None)).map(|r| r.hits.iter().map(|h| h.frame_id).collect()).unwrap_or_default();
+        let p = copy_to(&d.path, scratch.path(), "w.mv2");
+        let mut m = Memvid::open(&p).unwrap();
+        let re_sk: Vec<u64> = m.sketches().iter().map(|e| e.frame_id).collect();
+        let re: Result<Vec<u64>, String> = m.search(sreq(COMMON, 10, false, None, None)).map(|r| r.hits.iter().map(|h| h.frame_id).collect()).map_err(|e| e.to_string());
+        eprintln!("variant {} first put ok {} frames {}: live sketch ids {:?} search {:?} | reopened sketch ids {:?} search {:?}", variant, r0.is_ok(), d.mem().frame_count(), live_sk, live, re_sk, re);
+    }
+}
+
 pub fn run(seed: u64, n: usize, w: &mut dyn std::io::Write) {
+    if std::env::var("MV_C28_WITNESS").is_ok() { witness(); return; }
     if std::env::var("MV_KEEP_TMPDIR").is_err() && std::env::var("TMPDIR").is_err() && std::path::Path::new("/dev/shm").is_dir() { std::env::set_var("TMPDIR", "/dev/shm"); }
     let mut r = Rng::new(seed ^ 0xC28);
     let plans: Vec<(u64, usize, u64)> = (0..n).map(|i| { let profile = (i % 3) as u64; let nops = r.range(6, 22) as usize; (r.next(), nops, profile) }).collect();
+    if let Ok(k) = std::env::var("MV_C28_ONLY") { let k: usize = k.parse().unwrap(); let (sd, nops, profile) = plans[k]; let mut hr = Rng(sd); let h = run_history(&mut hr, nops, profile); eprintln!("viol {:?} tags {:?}", h.violation, h.tags); return; }
     let workers = 6usize;
     let mut results: Vec<Option<History>> = (0..n).map(|_| None).collect();
     for batch in (0..n).collect::<Vec<_>>().chunks(workers) {
